@@ -21,6 +21,8 @@ spin chain strongly coupled to its environment*, arXiv:2201.05529 (2022).
 
 from typing import Dict, List, Optional, Text, Union
 
+from copy import copy
+
 import numpy as np
 
 from oqupy.backends.pt_tebd_backend import PtTebdBackend
@@ -194,7 +196,7 @@ class PtTebd(BaseAPIClass):
                 self._process_tensors.append(process_tensor)
 
         assert isinstance(parameters, PtTebdParameters)
-        self._parameters = parameters
+        self._parameters = copy(parameters)
 
         if chain_control is None:
             self._chain_control = ChainControl(
